@@ -307,6 +307,12 @@ func (g *gen) random(r *emit.Rand, n int, kind string) {
 				limit := int64(r.Intn(12))
 				w.say("evict limit=%d skip=%v", limit, skip)
 				w.evict(limit, skip)
+			case c < 98 && backend == 1:
+				chunks := randBody(r)
+				n := int64(r.Intn(8))
+				objCtr++
+				w.say("store %d %s disk-write-fails-after=%d obj=%d", k, showChunks(chunks), n, objCtr)
+				w.storeDiskFull(k, chunks, n, 3605, objCtr)
 			case c < 99:
 				w.say("reopen")
 				w.reopen()
@@ -366,6 +372,17 @@ func (g *gen) directed() {
 			w.store(0, B, 0, 3605, 2, nil)
 			w.doRead(1, 100, true)
 		}},
+		{"disk-write-failure", func(w *world) {
+			w.store(0, A, 0, 3605, 1, nil)
+			w.get(0)
+			if w.backend == 1 {
+				w.storeDiskFull(0, [][]byte{[]byte("BBB"), []byte("BBBB"), []byte("BB")}, 5, 3605, 2)
+				w.storeDiskFull(1, [][]byte{[]byte("CCCCCC")}, 2, 3605, 3)
+			}
+			w.get(0)
+			w.doRead(1, 100, true)
+			w.del(0)
+		}},
 		{"expire-cleanup", func(w *world) {
 			w.store(0, A, 0, 15, 1, nil)
 			w.store(1, B, 0, 35, 2, nil)
@@ -380,6 +397,7 @@ func (g *gen) directed() {
 		for backend := 0; backend < 2; backend++ {
 			w := newWorld(g.cfg, backend, bigLimit, g.dir, []int{0, 1})
 			w.say("directed %s", s.name)
+			w.auto = true
 			s.f(w)
 			g.finish(w, "directed")
 		}
@@ -388,6 +406,7 @@ func (g *gen) directed() {
 	for backend := 0; backend < 2; backend++ {
 		w := newWorld(g.cfg, backend, 8, g.dir, []int{0, 1, 2})
 		w.say("directed full-cache limit=8")
+		w.auto = true
 		w.store(0, A, 0, 3605, 1, nil)
 		w.store(1, B, 0, 3605, 2, nil)
 		w.get(1)
